@@ -309,8 +309,79 @@ def direction_closure_section(ctx):
                 break
 
 
+def variable_values_section(ctx):
+    """the property on VARIABLE fonts: three masters whose entry / exit anchors and ligature carets differ; the variable font
+    (glyf and CFF2, variable features and per-master features), instantiated at every master's USER location -- one family in
+    two has a non-identity axis <map>, the middle master sitting at design 500 = user 400 -- has that master's cursive records
+    and carets"""
+    import ufo2ft
+    from fontTools.ttLib import TTFont
+    from fontTools.varLib import instancer
+    from harness import dsgen
+    rng = ctx.subrng("variable-values")
+    for i in range(ctx.budget(8, 24)):
+        lib = ["ufoLib2", "defcon"][i % 2]
+        mapped = i % 2 == 0
+        fn = ["compileVariableTTF", "compileVariableCFF2"][(i // 2) % 2]
+        vfeat = (i // 4) % 2 == 0
+        d = [0, rng.choice([7, 12, 25]), rng.choice([40, 64])]           # not linear along the axis
+        # one family in four has NO left-to-right code point at all (an Arabic-only font): the cursive writer then adds its
+        # statements before anybody compiled the temporary GSUB (repaired defect F29)
+        rtl_only = i % 4 == 3
+
+        def master(k):
+            tri = lambda x: [[(Fr(x), Fr(0), "line"), (Fr(x + 100 + 5 * k), Fr(0), "line"), (Fr(x + 50), Fr(100), "line")]]
+            gl = [{"name": "a", "unicodes": [0x61], "width": Fr(500 + 10 * k), "components": [], "contours": tri(0), "anchors": []},
+                  {"name": "beh-ar", "unicodes": [0x628], "width": Fr(600), "components": [], "contours": tri(10),
+                   "anchors": [("entry", Fr(500 + d[k]), Fr(10 + d[k])), ("exit", Fr(0), Fr(-d[k]))]},
+                  {"name": "n", "unicodes": [0x6E], "width": Fr(550), "components": [], "contours": tri(20),
+                   "anchors": [("entry", Fr(5), Fr(d[k])), ("exit", Fr(540 + d[k]), Fr(3))]},
+                  {"name": "f_f_i", "unicodes": [], "width": Fr(900), "components": [], "contours": tri(30),
+                   "anchors": [("caret_1", Fr(300 + d[k]), Fr(0)), ("caret_2", Fr(600 + 2 * d[k]), Fr(0)), ("vcaret_1", Fr(0), Fr(200 - d[k]))]}]
+            if rtl_only:
+                gl = [g for g in gl if g["name"] not in ("a", "n")]
+            return {"glyphs": gl, "glyphOrder": [g["name"] for g in gl], "kerning": {}, "groups": {},
+                    "features": "languagesystem DFLT dflt;\nlanguagesystem latn dflt;\nlanguagesystem arab dflt;\n",
+                    "lib": {"public.openTypeCategories": {"a": "base", "beh-ar": "base", "n": "base", "f_f_i": "ligature"}},
+                    "info": {"familyName": "Fam", "styleName": "M%d" % k, "unitsPerEm": 1000, "ascender": 800, "descender": -200}}
+        masters = [master(k) for k in range(3)]
+        case = {"function": fn, "variableFeatures": vfeat, "lib": lib, "axis_map": [(100, 100), (400, 500), (900, 900)] if mapped else None,
+                "no_left_to_right_code_point": rtl_only, "masters": [jsonable(m) for m in masters]}
+        ctx.count(); ctx.klass("variable values: %s/vfeat=%s%s%s" % (fn, vfeat, "/axis map" if mapped else "", "/rtl only" if rtl_only else "")); ctx.nontriv(("vv", i, ctx.scale))
+        try:
+            ds, fonts = dsgen.make_designspace(rng, masters, lib, instances=False)
+            if mapped:
+                ds.axes[0].map = [(100, 100), (400, 500), (900, 900)]
+            vf = getattr(ufo2ft, fn)(ds, variableFeatures=vfeat, useProductionNames=False)
+            b = io.BytesIO(); vf.save(b)
+        except Exception as e:
+            ctx.spec_failure(case, "%s raised %s: %s\n%s" % (fn, type(e).__name__, e, traceback.format_exc()[-1000:]))
+            continue
+        for k, wght in enumerate([100, 400 if mapped else 500, 900]):
+            inst = instancer.instantiateVariableFont(TTFont(io.BytesIO(b.getvalue())), {"wght": wght})
+            b2 = io.BytesIO(); inst.save(b2)
+            lay = Layout(TTFont(io.BytesIO(b2.getvalue())))
+            by = {g["name"]: {a[0]: (int(a[1]), int(a[2])) for a in g["anchors"]} for g in masters[k]["glyphs"]}
+            got = {}
+            for li, flag, recs in lay.cursive():
+                for g, (en, ex) in recs.items():
+                    got[g] = (tuple(en[:2]) if en else None, tuple(ex[:2]) if ex else None)
+            want = {g: (by[g]["entry"], by[g]["exit"]) for g in ("beh-ar", "n") if g in by}
+            if got != want:
+                ctx.spec_failure(dict(case, master=k, user_location=wght, cursive_records=jsonable(got)),
+                                 "at master %d's location (user wght=%s) the cursive records are %r; that master's entry / exit anchors are %r" % (k, wght, got, want))
+                break
+            carets = sorted(c for _, c in lay.lig_carets().get("f_f_i", []))
+            wantc = sorted([by["f_f_i"]["caret_1"][0], by["f_f_i"]["caret_2"][0], by["f_f_i"]["vcaret_1"][1]])
+            if carets != wantc:
+                ctx.spec_failure(dict(case, master=k, user_location=wght, carets=carets),
+                                 "at master %d's location (user wght=%s) the carets of f_f_i are %r; that master's caret anchors give %r" % (k, wght, carets, wantc))
+                break
+
+
 def explore(ctx):
     user_caret_section(ctx)
+    variable_values_section(ctx)
     direction_closure_section(ctx)
     classify_model_section(ctx)
     import ufo2ft
